@@ -342,23 +342,21 @@ def edit_constant(parameterized):
     Temporarily set parameters on Parameterized object to constant=False
     to allow editing them.
     """
-    kls_params = parameterized.param.objects(instance=False)
-    inst_params = parameterized._param__private.params
+    # Only the Parameter objects of this very object are unlocked (for an
+    # instance: its instance-level copies, created here if need be), so that
+    # other instances and the class stay protected meanwhile and no copy made
+    # from an unlocked class-level Parameter is left unlocked afterwards.
     updated = []
-    for pname, pobj in (kls_params | inst_params).items():
+    for pname in list(parameterized.param.objects(instance=False)):
+        pobj = parameterized.param[pname]
         if pobj.constant:
             pobj.constant = False
-            updated.append(pname)
+            updated.append(pobj)
     try:
         yield
     finally:
-        for pname in updated:
-            # Some operations trigger a parameter instantiation (copy),
-            # we ensure both the class and instance parameters are reset.
-            if pname in kls_params:
-                type(parameterized).param[pname].constant=True
-            if pname in inst_params:
-                parameterized.param[pname].constant = True
+        for pobj in updated:
+            pobj.constant = True
 
 
 @contextmanager
